@@ -381,6 +381,21 @@ func (c *c12Run) fakeSend(fd int, m string, own *c12Owned) error {
 			syscall.Close(nb)
 			return err
 		}
+		if f[1] == "3" {
+			// a mappable queue descriptor and a buffer descriptor that CAN be mapped but was never laid out (zeros): the
+			// mapping succeeds, mappingBufferManager refuses the content
+			if err := c.ownMemory(MemMapTypeMemFd, own); err != nil {
+				return err
+			}
+			zb, err := MemfdCreate(c.prefix+"_blank_buffer", 0)
+			if err != nil {
+				return err
+			}
+			syscall.Ftruncate(zb, 1<<20)
+			err = sendFd(fd, syscall.UnixRights(zb, own.qm.memFd))
+			syscall.Close(zb)
+			return err
+		}
 		n1, _ := syscall.Open("/dev/null", syscall.O_RDWR, 0)
 		n2, _ := syscall.Open("/dev/null", syscall.O_RDWR, 0)
 		err := sendFd(fd, syscall.UnixRights(n1, n2))
@@ -741,12 +756,12 @@ func c12Gen(r *rand.Rand, tier string, idx int) []string {
 		k := r.Intn(len(ms) + 1)
 		ms = ms[:k] // the peer stops after k messages
 		if r.Intn(3) == 0 && len(ms) > 0 {
-			alt := []string{"exver:2", "exver:3", "exver:4", "mfile:2:1", "mfile:2:0", "mfile:2:2", "mfile:3:1", "mfile:3:0", "mfile:3:2", "mmemfd:3", "ackfd", "ackshm", "fds:0", "fds:2", "other:1:3", "other:2:2", "other:9:5"}
+			alt := []string{"exver:2", "exver:3", "exver:4", "mfile:2:1", "mfile:2:0", "mfile:2:2", "mfile:3:1", "mfile:3:0", "mfile:3:2", "mmemfd:3", "ackfd", "ackshm", "fds:0", "fds:2", "fds:3", "other:1:3", "other:2:2", "other:9:5"}
 			a := alt[r.Intn(len(alt))]
 			// descriptors travel without a header: only where the server is about to receive them
 			if !strings.HasPrefix(a, "fds:") || (len(ms) == 3 && ms[0] == "exver:3" && ms[1] == "mmemfd:3") {
 				ms[len(ms)-1] = a
-				if a == "fds:2" {
+				if a == "fds:2" || a == "fds:3" {
 					// a buffer path that is registered in this process' global table would be "mapped" from the table
 					// whatever the descriptor is (an artefact of running both ends in one process): name an unknown buffer
 					ms[1] = "mmemfdx:3"
@@ -756,7 +771,7 @@ func c12Gen(r *rand.Rand, tier string, idx int) []string {
 		return ms
 	}
 	if r.Intn(12) == 0 {
-		return []string{"srv " + tail() + " exver:3 mmemfdx:3 fds:2"}
+		return []string{"srv " + tail() + " exver:3 mmemfdx:3 fds:" + []string{"2", "3"}[r.Intn(2)]}
 	}
 	if r.Intn(9) == 0 {
 		// a message that arrives only in part (then the peer stalls or closes): the reader must still end with the tail's outcome
